@@ -477,6 +477,41 @@ def share_subquery(rng, cfg, world, pool):
             q["conds"] = []
 
 
+def share_condition(rng, cfg, world, pool):
+    """One join-condition OBJECT (`same = a.x == b.y`) is used by two or more queries of the pool, each time behind a
+    different filter, so that its operator cache and coverage list are written under one query's bindings and read
+    under another's."""
+    names = [v["n"] for v in pool["vars"] if v["n"] != "u" and v.get("t") != "View"]
+    if len(names) < 2 or len(pool["queries"]) < 2:
+        return
+    for _ in range(40):
+        a, b = rng.sample(names, 2)
+        cg = CondGen(rng, dict(cfg, vocab=sorted(set(cfg["vocab"]) - {"nest", "forall", "flat"})), world, names, {})
+        ops = ["==", "==", "!=", "<", "<=", ">", ">="]
+        shared = ["shared", "c0", ["cmp", cg.num_term([a]), rng.choice(ops), cg.num_term([b])]]
+        chosen = rng.sample(range(len(pool["queries"])), rng.randint(2, len(pool["queries"])))
+        trial = copy.deepcopy(pool["queries"])
+        for qi in chosen:
+            q = trial[qi]
+            r = rng.random()
+            if r < 0.4:
+                filt = [["cmp", cg.num_term([rng.choice([a, b])]), rng.choice(ops), cg.lit()]]
+            elif r < 0.8:
+                filt = [["cmp", cg.num_term([a]), rng.choice(ops), cg.num_term([b])]]      # a pair filter
+            else:
+                filt = []
+            keep = q.get("conds", []) if rng.random() < 0.3 else []
+            q["conds"] = filt + [copy.deepcopy(shared)] + keep if rng.random() < 0.8 else \
+                [copy.deepcopy(shared)] + filt + keep
+            if rng.random() < 0.7:
+                q["shape"] = "set_of"
+                q["sel"] = [a, b]
+        probe = dict(pool, queries=trial)
+        if not pool_regions(probe):
+            pool["queries"] = trial
+            return
+
+
 # ------------------------------------------------------------------------------------------ rules / inference
 
 def gen_rule_pool(rng, cfg, world, kinds=("infer", "add")) -> dict:
